@@ -105,6 +105,38 @@ pub fn run(prop: &str, seed: u64, tier_thorough: bool, trace_path: Option<&str>,
         lens.extend_from_slice(&[131072, 131073]);
     }
     let mut cli_budget = if tier_thorough { 400 } else { 60 };
+    // corpus of inputs that put the range encoder exactly on a boundary of its flush test (found offline by
+    // `lzverif carrysearch`, see d_carry.rs); ordinary inputs as far as the property is concerned
+    let mut corpus: Vec<Vec<u8>> = vec![];
+    let cpath = std::env::var("LZVERIF_CORPUS").unwrap_or_else(|_| "/verif/corpus/enc_edge_inputs.json".to_string());
+    if let Ok(t) = std::fs::read_to_string(&cpath) {
+        if let Ok(v) = serde_json::from_str::<Value>(&t) {
+            for e in v["inputs"].as_array().cloned().unwrap_or_default() {
+                if let Some(h) = e["input_hex"].as_str() {
+                    corpus.push(crate::report::unhex(h));
+                }
+            }
+        }
+    }
+    rep.add("encoder_boundary_corpus_inputs", corpus.len() as u64);
+    for (ci, input) in corpus.iter().enumerate() {
+        for (oname, us, dopt) in [
+            ("marker", lzma_rs::compress::UnpackedSize::WriteToHeader(None), Opt::ReadFromHeader),
+            ("size", lzma_rs::compress::UnpackedSize::WriteToHeader(Some(input.len() as u64)), Opt::ReadFromHeader),
+            ("skip", lzma_rs::compress::UnpackedSize::SkipWritingToHeader, Opt::UseProvided { n: Some(input.len() as u64) }),
+        ] {
+            let mut out = vec![];
+            let mut src = &input[..];
+            let r = catch(|| lzma_rs::lzma_compress_with_options(&mut src, &mut out, &lzma_rs::compress::Options { unpacked_size: us }));
+            let ok = matches!(r, Caught::Done(Ok(())));
+            let d1 = api::lzma_bytes(&out, &api::options(dopt, None, false));
+            rep.eval(hash_of(&(ci, oname, "corpus")), true);
+            if !ok || d1.verdict != Verdict::Ok || d1.out != *input {
+                rep.violation(prop, format!("lzma_compress[{}] on corpus input #{} ({} bytes, drives the range encoder onto a flush-test boundary): output does not decode back to the input: {:?} {}", oname, ci, input.len(), d1.verdict, d1.msg),
+                    json!({"kind": "enc", "api": "lzma", "opt": oname, "corpus_index": ci, "seed": seed}));
+            }
+        }
+    }
     for (li, &n) in lens.iter().enumerate() {
         let kinds: Vec<usize> = if n <= 1000 { (0..7).collect() } else if tier_thorough { vec![0, 1, 2, 3, 5, 6] } else { vec![(li + seed as usize) % 7, 2] };
         for kind in kinds {
